@@ -233,6 +233,34 @@ fn mutated_text(d: &mut Dec) -> (String, bool) {
     (text, nm + nc > 0)
 }
 
+/// long tokens (strings, identifiers, numerals) with multi-byte characters at arbitrary byte offsets, in legal and in
+/// illegal positions (error messages that quote or shorten the offending token must stay on character boundaries)
+fn long_token_text(d: &mut Dec) -> String {
+    let n = 1 + d.below(90);
+    let body: String = (0..n)
+        .map(|_| match d.below(6) {
+            0 => *d.pick(&['é', 'ß', '€', '中', '😀', '\u{a0}', '\u{301}']),
+            _ => (b'a' + d.below(26) as u8) as char,
+        })
+        .collect();
+    let tok = match d.below(5) {
+        0 | 1 => format!("\"{body}\""),
+        2 => format!("a{}", body.chars().filter(|c| c.is_ascii()).collect::<String>()),
+        3 => format!("i{}", "7".repeat(n)),
+        _ => format!("\"{body}"),
+    };
+    match d.below(8) {
+        0 => tok,
+        1 => format!("i1 {tok}"),
+        2 => format!("{tok} {tok}"),
+        3 => format!("[i1 {tok}]"),
+        4 => format!("a.{tok}"),
+        5 => format!("if {tok} then"),
+        6 => format!("@{tok}: i1; i2"),
+        _ => format!("{tok} contains contains {tok}"),
+    }
+}
+
 fn rule_wrap(d: &mut Dec, text: String) -> String {
     match d.below(6) {
         0 => format!("// name\n{text}"),
@@ -246,7 +274,8 @@ fn rule_wrap(d: &mut Dec, text: String) -> String {
 
 pub fn random_text(bytes: &[u8]) -> (String, &'static str, bool) {
     let mut d = Dec::new(bytes);
-    let (t, class, nt) = match d.below(8) {
+    let (t, class, nt) = match d.below(9) {
+        8 => (long_token_text(&mut d), "long-token", true),
         0 | 1 => {
             let (t, m) = mutated_text(&mut d);
             (t, "mutated", m)
